@@ -95,8 +95,13 @@ def concretize(case, variant=0, reads="all"):
                     if form == 0:
                         out.append(f'{{% {op} "{tname}", {n}: {_lit(v)} %}}{tail}')
                     elif form == 1 and v != "nil":
-                        data["_s_" + tag] = v
-                        out.append(f'{{% {op} "{tname}" with _s_{tag} as {n} %}}{tail}')
+                        if variant % 2 == 0:
+                            # the bound value is a LOCAL of the caller (no render data needed: with no globals at all the namespace the tag
+                            # builds is empty when the context is copied - the bound variable must still arrive)
+                            out.append(f'{{% assign _s_{tag} = {_lit(v)} %}}{{% {op} "{tname}" with _s_{tag} as {n} %}}{tail}')
+                        else:
+                            data["_s_" + tag] = v
+                            out.append(f'{{% {op} "{tname}" with _s_{tag} as {n} %}}{tail}')
                     elif form == 2:
                         data["_" + tag] = [None if v == "nil" else v]
                         out.append(f'{{% {op} "{tname}" for _{tag} as {n} %}}{tail}')
